@@ -187,7 +187,9 @@ OkInsert(T, c, t, s, k, a, d, out) ==
         /\ Cardinality(g) <= 1
         /\ g # {} => (needSlot /\ full)
         /\ (needSlot /\ full /\ sur = 0) => Cardinality(g) = 1
-        /\ (needSlot /\ full) => out.sz = c.cap
+        \* size() stays at capacity(); with expired entries present an implementation may discard
+        \* more than the one it needs (C19 allows that), which C02 bounds
+        /\ (needSlot /\ full /\ sur = 0) => out.sz = c.cap
   /\ ("C02" \in T) => SizeRule(c, L2, sur + (IF doa THEN 1 ELSE 0), Cardinality(unr2), out.sz)
   /\ ("C17" \in T) => ((c.kind \in UtKinds /\ ~live /\ a = 2) => ~out.ret)
   /\ ("C10" \in T) =>
@@ -269,6 +271,7 @@ OkFind(T, c, t, s, k, peek, out) ==
   /\ ("C04" \in T) => ((c.kind \in TtlKinds /\ hit) => t < s.dl[k])
   /\ ("C03" \in T) => (live => hit)
   /\ ("C05" \in T) => ((c.kind \in TtlKinds /\ live) => hit)
+  /\ ("C17" \in T) => ((c.kind \in UtKinds /\ hit) => live)    \* ut_map / ut_set purge before they look up
   /\ ("C11" \in T) => ((c.kind \in CntKinds /\ out.wc /\ hit /\ live) =>
                            out.rc = s.cnt[k] + (IF peek THEN 0 ELSE 1))
   /\ ("C02" \in T) => SizeRule(c, NLive(s), Surplus(s), Cardinality(s.unr), out.sz)
